@@ -144,3 +144,24 @@ Proof.
   destruct (add_si span a bc r Ha Hbc Pa Pbc H4) as [S4 U4].
   split; [rewrite S2, S1, S4, S3; ring|congruence].
 Qed.
+
+(* non-vacuity: J/N against m (the base dimensions of kg, m and s cancel on the left), km against m, and a mismatch *)
+Definition u_J : unit := 3766052723%N.
+Definition u_N : unit := 353022001%N.
+Definition u_m : unit := base_key 2.
+Definition u_s : unit := base_key 3.
+Example unit_examples :
+  proportional [(u_N, (-1, 0)); (u_J, (1, 0))] /\ samedim [(u_m, (1, 0))] [(u_N, (-1, 0)); (u_J, (1, 0))] /\
+  factor [(u_m, (1, 0))] [(u_N, (-1, 0)); (u_J, (1, 0))] (3 # 1) = Some (true, (3 # 1)%Q) /\
+  (exists v, factor [(u_m, (1, 0))] [(u_m, (1, 3))] (5 # 2) = Some (true, v) /\ (v == 2500 # 1)%Q) /\
+  factor [(u_m, (1, 0))] [(u_s, (1, 0))] 1 = Some (false, 1%Q).
+Proof.
+  assert (P1 : proportional [(u_N, (-1, 0)); (u_J, (1, 0))]) by (repeat constructor).
+  assert (P2 : proportional [(u_m, (1, 0))]) by (repeat constructor).
+  assert (E : factor [(u_m, (1, 0))] [(u_N, (-1, 0)); (u_J, (1, 0))] (3 # 1) = Some (true, (3 # 1)%Q)) by (vm_compute; reflexivity).
+  split; [exact P1|]. split.
+  - assert (N1 : [(u_m, (1, 0))] <> ([] : compound)) by discriminate.
+    assert (N2 : [(u_N, (-1, 0)); (u_J, (1, 0))] <> ([] : compound)) by discriminate.
+    unfold samedim. apply (proj1 (proj1 (factor_ok_iff _ _ (3 # 1)%Q N1 N2 P2 P1))). eexists; exact E.
+  - split; [exact E|]. split; [eexists; split; vm_compute; reflexivity|vm_compute; reflexivity].
+Qed.
